@@ -140,6 +140,11 @@ def h_adjacency(ctx, npre, op):
     do_probe(k)
     clock.now = clock.now + ctx.int('gap%d' % n, 0, 30)
   del events[:]
+  # another application listening to the same LinkEvents fails on every withdrawal (e.g. it looks the vanished switch up): that is its own
+  # problem - every withdrawn link is still announced to everybody else, and the periodic check goes on
+  def faulty(e):
+    if not e.added: raise KeyError(e.link.dpid1)
+  disc.addListenerByName('LinkEvent', faulty, priority=-1)
   timeout = disc._link_timeout
   ctx.check('the periodic link-timeout check keeps running after a check that removed nothing', tm is not None and tm.alive)
   if op == 'probe':
